@@ -3,7 +3,9 @@
 package influxql
 
 import (
+	"bufio"
 	"runtime"
+	"strings"
 	"sync"
 	"sync/atomic"
 	"unsafe"
@@ -59,3 +61,61 @@ func (s *Scanner) VerifConsumed() int {
 
 // VerifScanner exposes the parser's underlying scanner.
 func (p *Parser) VerifScanner() *Scanner { return p.s.s }
+
+// VerifRune is one (rune, position) pair handed out by the rune reader.
+type VerifRune struct {
+	Ch  rune
+	Pos Pos
+}
+
+// VerifReaderOps drives a fresh rune reader over text with the operations in ops
+// ('r' = read, 'u' = unread, 'c' = curr; other bytes are ignored) and returns what
+// read and curr returned, in order. curr panics beyond the depth of the ring
+// (verifAssertReaderPushback); the caller recovers.
+func VerifReaderOps(text string, ops string) (out []VerifRune) {
+	r := &reader{r: bufio.NewReader(strings.NewReader(text))}
+	for i := 0; i < len(ops); i++ {
+		switch ops[i] {
+		case 'r':
+			ch, pos := r.read()
+			out = append(out, VerifRune{ch, pos})
+		case 'u':
+			r.unread()
+		case 'c':
+			ch, pos := r.curr()
+			out = append(out, VerifRune{ch, pos})
+		}
+	}
+	return out
+}
+
+// VerifToken is one (token, position, literal) triple handed out by the token ring.
+type VerifToken struct {
+	Tok Token
+	Pos Pos
+	Lit string
+}
+
+// VerifTokenOps drives a fresh bufScanner over text with the operations in ops
+// ('s' = Scan, 'x' = ScanRegex, 'u' = Unscan, 'c' = curr) and returns what the scans
+// and curr returned, in order. curr panics beyond the depth of the ring
+// (verifAssertTokenPushback); the caller recovers.
+func VerifTokenOps(text string, ops string) (out []VerifToken) {
+	s := newBufScanner(strings.NewReader(text))
+	for i := 0; i < len(ops); i++ {
+		switch ops[i] {
+		case 's':
+			tok, pos, lit := s.Scan()
+			out = append(out, VerifToken{tok, pos, lit})
+		case 'x':
+			tok, pos, lit := s.ScanRegex()
+			out = append(out, VerifToken{tok, pos, lit})
+		case 'u':
+			s.Unscan()
+		case 'c':
+			tok, pos, lit := s.curr()
+			out = append(out, VerifToken{tok, pos, lit})
+		}
+	}
+	return out
+}
